@@ -90,32 +90,35 @@ Section WithFloat.
 Context {F : Type}.
 Variable pf : list N -> option F.
 
-Inductive bval :=
-| BNone                      (* value == nil *)
-| BStr (bs : list N)         (* string: bytes *)
-| BFloat (f : option F).     (* float64; None stands for the 0 returned on error *)
+(** A float token's value: [None] stands for the 0 that parseFloatValue
+    returns together with an error. *)
+Inductive okey :=
+| KIdent (lit : list N)                  (* bare key: the identifier *)
+| KStr (lit : list N) (bs : list N).     (* quoted key: its unquoted bytes ("" on error) *)
 
-Record okey := mkKey { kty : ttype; klit : list N; kval : bval }.
-
+(** [basic] nodes are split by token type; a sign is only ever attached to
+    an integer or a float (parseValue). *)
 Inductive value :=
 | VNil                                   (* Go nil: only on error paths *)
 | VNull
-| VBool (lit : list N)
-| VBasic (lead : option (list N)) (ty : ttype) (lit : list N) (v : bval)
+| VBool (b : bool)
+| VStr (lit : list N) (bs : list N)      (* string token; unquoted bytes ("" on error) *)
+| VInt (lead : option (list N)) (lit : list N)
+| VFloat (lead : option (list N)) (lit : list N) (f : option F)
 | VObject (entries : list (okey * value))
 | VList (entries : list value)
 | VIdents (ids : list (list N)).
 
-Definition parse_string_value (t : ptok) (st : pstate) : bval * pstate :=
+Definition parse_string_value (t : ptok) (st : pstate) : list N * pstate :=
   match go_unquote (plit t) with
-  | Some bs => (BStr bs, st)
-  | None => (BStr [], p_add EStringLit st)
+  | Some bs => (bs, st)
+  | None => ([], p_add EStringLit st)
   end.
 
-Definition parse_float_value (t : ptok) (st : pstate) : bval * pstate :=
+Definition parse_float_value (t : ptok) (st : pstate) : option F * pstate :=
   match pf (plit t) with
-  | Some f => (BFloat (Some f), st)
-  | None => (BFloat None, p_add EFloatLit st)
+  | Some f => (Some f, st)
+  | None => (None, p_add EFloatLit st)
   end.
 
 Definition lit_true := [116; 114; 117; 101].
@@ -150,26 +153,26 @@ Definition pv_body
   match pty t with
   | TKeyword =>
       let st1 := p_next st in
-      if list_N_eqb (plit t) lit_true || list_N_eqb (plit t) lit_false
-      then Some (VBool (plit t), st1)
+      if list_N_eqb (plit t) lit_true then Some (VBool true, st1)
+      else if list_N_eqb (plit t) lit_false then Some (VBool false, st1)
       else if list_N_eqb (plit t) lit_null then Some (VNull, st1)
       else Some (VNil, p_add EUnexpectedKeyword st1)
   | TString =>
-      let '(bv, st2) := parse_string_value t (p_next st) in
-      Some (VBasic None TString (plit t) bv, st2)
-  | TInt => Some (VBasic None TInt (plit t) BNone, p_next st)
+      let '(bs, st2) := parse_string_value t (p_next st) in
+      Some (VStr (plit t) bs, st2)
+  | TInt => Some (VInt None (plit t), p_next st)
   | TFloat =>
-      let '(bv, st2) := parse_float_value t (p_next st) in
-      Some (VBasic None TFloat (plit t) bv, st2)
+      let '(fv, st2) := parse_float_value t (p_next st) in
+      Some (VFloat None (plit t) fv, st2)
   | TOperator =>
       if lit_is t [43] || lit_is t [45] then
         let st1 := p_next st in
         let n := cur st1 in
         match pty n with
-        | TInt => Some (VBasic (Some (plit t)) TInt (plit n) BNone, p_next st1)
+        | TInt => Some (VInt (Some (plit t)) (plit n), p_next st1)
         | TFloat =>
-            let '(bv, st2) := parse_float_value n (p_next st1) in
-            Some (VBasic (Some (plit t)) TFloat (plit n) bv, st2)
+            let '(fv, st2) := parse_float_value n (p_next st1) in
+            Some (VFloat (Some (plit t)) (plit n) fv, st2)
         | _ => Some (VNil, p_add EExpectNumber st1)
         end
       else if lit_is t [123] then
@@ -197,8 +200,10 @@ Definition poe_body
   else
     let k := cur st in
     let st1 := p_next st in
-    let '(kv, st2) :=
-      if ttype_eqb (pty k) TString then parse_string_value k st1 else (BNone, st1) in
+    let '(key, st2) :=
+      if ttype_eqb (pty k) TString
+      then let '(bs, st2) := parse_string_value k st1 in (KStr (plit k) bs, st2)
+      else (KIdent (plit k), st1) in
     let st3 := snd (expect_op [58] st2) in
     match pv st3 with
     | None => None
@@ -207,7 +212,7 @@ Definition poe_body
           if see_op [[44]] st4 then p_next st4
           else if negb (see_op [[125]] st4) then snd (expect_op [44] st4)
           else st4 in
-        let acc' := acc ++ [(mkKey (pty k) (plit k) kv, v)] in
+        let acc' := acc ++ [(key, v)] in
         if jail st5 then Some (acc', st5)
         else poe st5 acc'
     end.
@@ -273,8 +278,8 @@ Definition parse_type_name (st : pstate) : option (list N) * pstate :=
   let t := cur st in
   match pty t with
   | TString =>
-      let '(bv, st1) := parse_string_value t (p_next st) in
-      (Some (match bv with BStr bs => bs | _ => [] end), st1)
+      let '(bs, st1) := parse_string_value t (p_next st) in
+      (Some bs, st1)
   | TIdent => (Some (utf8_encode (plit t)), p_next st)
   | _ => (None, p_add EExpectTypeName st)
   end.
@@ -308,9 +313,9 @@ Definition parse_fuel (st : pstate) : nat := 2 * length (rest st) + 8.
 
 End WithFloat.
 
-Arguments BNone {F}.
-Arguments BStr {F} bs.
 Arguments VNil {F}.
 Arguments VNull {F}.
-Arguments VBool {F} lit.
+Arguments VBool {F} b.
+Arguments VStr {F} lit bs.
+Arguments VInt {F} lead lit.
 Arguments VIdents {F} ids.
